@@ -178,6 +178,8 @@ type c20Cfg struct {
 	// Replace: "first" / "last" = goldmark.WithParser(a parser built from the defaults) and goldmark.WithRenderer(a renderer
 	// built from the default node renderer) are given before / behind the other options of goldmark.New
 	Replace string `json:"replace_parser_and_renderer,omitempty"`
+	// Trig: the trigger byte of the BT* block probes (0 = '$'); 0xE2 is the lead byte of a non-ASCII character
+	Trig byte `json:"block_trigger_byte,omitempty"`
 	_       struct{}
 }
 
@@ -214,6 +216,9 @@ func (c c20Cfg) build(log *[]string) goldmark.Markdown {
 			var trig []byte
 			if strings.HasPrefix(k.Name, "BT") {
 				trig = []byte{'$'}
+				if c.Trig != 0 {
+					trig = []byte{c.Trig}
+				}
 			}
 			po = parser.WithBlockParsers(util.Prioritized(get(k.Name, func() any { return &c20BP{name: k.Name, trig: trig, accept: k.Script == 1, log: log} }), k.Prio))
 		case "inline":
@@ -284,7 +289,11 @@ func modelBlock(c c20Cfg) []string {
 			continue
 		}
 		var cands []c20Comp
-		if line[0] == '$' {
+		tb := byte('$')
+		if c.Trig != 0 {
+			tb = c.Trig
+		}
+		if line[0] == tb {
 			cands = append(cands, trig...)
 		}
 		// trigger-less parsers in ascending priority, the built-in paragraph parser among them at 1000
@@ -668,6 +677,13 @@ func runC20(r *core.Run) {
 					c := cfgs[i]
 					c.Doc = d
 					c20Run(s, c)
+					if g.name == "block" && rn.suffix == "" && strings.Contains(d, "$") {
+						// the same with a trigger byte outside ASCII (the lead byte of U+2192)
+						c3 := c
+						c3.Trig = 0xE2
+						c3.Doc = strings.ReplaceAll(d, "$", "\u2192")
+						c20Run(s, c3)
+					}
 					// probes that arrive through Extenders are registered after all options of goldmark.New have been applied:
 					// a parser / renderer replaced by WithParser / WithRenderer anywhere in the option list must still get them
 					allExt := len(c.Comps) > 0
